@@ -350,6 +350,11 @@ def build(unit_path, repo=None, extra_tail='', twins_only=False):
         if it.source not in sources:
             sources[it.source] = SourceFile(os.path.join(repo, it.source))
             ctx.add_source(sources[it.source])
+            if sources[it.source].erased:
+                # rule R30 (tool/erase.py) was applied to the whole file before slicing; its firings are counted once per file
+                for k_, v_ in sources[it.source].erased.items():
+                    if v_:
+                        g.rules_fired[k_] = g.rules_fired.get(k_, 0) + v_
         sf = sources[it.source]
         if it.path.startswith('lifted '):
             from extract import Item
@@ -427,9 +432,10 @@ def build(unit_path, repo=None, extra_tail='', twins_only=False):
                 if pref in g.auto_prefixes:
                     pref = pref + '.' + (it.rename or item.name)
                 g.auto_prefixes.add(pref)
-                it.clauses.append(vspec.Clause('ensures', ['C20'], pref + '.c20_no_silent_fault', cexpr, it.lineno))
-                if 'C20' not in it.props:
-                    it.props = list(it.props) + ['C20']
+                atag = getattr(it, 'auto_tag', None) or 'C20'
+                it.clauses.append(vspec.Clause('ensures', [atag], pref + '.c20_no_silent_fault', cexpr, it.lineno))
+                if atag not in it.props:
+                    it.props = list(it.props) + [atag]
             else:
                 g.notes.append('no C20 clause for %s (return type %s)' % (where, rt))
         if it.ret:
